@@ -1119,6 +1119,14 @@ func TestVerifC19World(t *testing.T) {
 				ks = append(ks, k)
 			}
 			sort.Strings(ks)
+			if c.Idx < 3 {
+				h := hist
+				if len(h) > 25 {
+					h = h[:25]
+				}
+				c.Sample(map[string]any{"router": router, "small_queues": smallQ, "trace_events": len(evs), "join_leave": expectJL, "deliver_events": len(delivers),
+					"publish_attempts": nPublishAttempts, "send_drop_events": len(acct.fromEv), "file_events_each": len(want), "first_ops": h})
+			}
 			c.Sig(router, flood && router == "gossipsub", ks, len(expectJL) > 0, len(pubs) > 0)
 			c.Nontrivial(len(evs) > 20 && len(kinds) >= 4)
 			c.Count("trace_events", len(evs))
@@ -1227,6 +1235,10 @@ func TestVerifC19Mesh(t *testing.T) {
 				case pb.TraceEvent_PRUNE:
 					prunes++
 				}
+			}
+			if c.Idx < 2 {
+				c.Sample(map[string]any{"params": fmt.Sprintf("D=%d Dlo=%d Dhi=%d Dout=%d", params.D, params.Dlo, params.Dhi, params.Dout), "scoring": scoring,
+					"trace_events": len(evs), "graft_events": grafts, "prune_events": prunes, "replay_checks": checks})
 			}
 			c.Sig(w.KindList(), grafts > 0, prunes > 0, scoring)
 			c.Nontrivial(grafts > 0 && checks > 5)
@@ -1364,6 +1376,9 @@ func TestVerifC19Files(t *testing.T) {
 					format, next[i], i, lower[i], upper[i], K, N, closeAfter)
 				return
 			}
+		}
+		if c.Idx < 2 {
+			c.Sample(map[string]any{"format": format, "producers": K, "events_per_producer": N, "close_after": closeAfter, "file_events": len(res.evs)})
 		}
 		c.Sig(format, K, closeAfter == total, yieldEvery, N/100)
 		c.Nontrivial(len(res.evs) > 10)
